@@ -23,7 +23,7 @@ class ToGFA1:
     a.append(ol2.name)
     a.append(ol2.orient)
     if self._alignment_type == "C":
-      a.append(str(self.pos))
+      a.append(str(gfapy.posvalue(self.pos)))
     try:
       self.overlap.validate(version = "gfa1")
     except:
